@@ -254,3 +254,119 @@ func TestCacheTierSweepRace(t *testing.T) {
 	vkit.Case("cache-sweep-race", true, fmt.Sprint(vkit.Shard()))
 	vkit.AddExtra("sweep_race_rounds", int64(rounds))
 }
+
+// ---------------------------------------------------------------------------
+// TestTwoNodeWriteThrough — two nodes, each with its own node-local cache, over ONE persistent tier (the
+// remote-storage deployment without Redis). A node's cache is not authoritative: whatever it holds, a
+// write that has returned must have reached the persistent tier with exactly the written value, and a
+// read on a node whose cache entry is gone must see the last write of either node.
+
+type TNCase struct {
+	TwoNode bool     `json:"two_node_write_through"`
+	Key     string   `json:"tn_key"`
+	Steps   []TNStep `json:"tn_steps"`
+}
+
+type TNStep struct {
+	Op   string `json:"op"` // set | delete | evict | get
+	Node int    `json:"node"`
+	Val  string `json:"val,omitempty"`
+	TTL  int    `json:"ttl_s,omitempty"`
+}
+
+func runTwoNode(c TNCase) (key, detail string) {
+	pers := vkit.NewGatePersistent(nil, "pers")
+	var caches [2]*memory.Storage
+	var hs [2]*hybrid.Storage
+	for i := range hs {
+		caches[i] = memory.New(context.Background())
+		cfg := hybrid.DefaultConfig()
+		cfg.EnablePersistent = true
+		hs[i] = hybrid.NewWithSharedCache(context.Background(), caches[i], nil, pers, cfg)
+		defer hs[i].Close()
+	}
+	last, present := "", false
+	for i, st := range c.Steps {
+		n := st.Node % 2
+		switch st.Op {
+		case "set":
+			if err := hs[n].Set(c.Key, st.Val, time.Duration(st.TTL)*time.Second); err != nil {
+				return "C14/harness/two-node", fmt.Sprintf("step %d: Set: %v", i, err)
+			}
+			last, present = st.Val, true
+			v, ok := pers.RawGet(c.Key)
+			if !ok || fmt.Sprint(v) != st.Val {
+				return "C14/two-node/acknowledged-write-not-in-persistent-tier",
+					fmt.Sprintf("step %d: node %d wrote %q to %s (Set returned nil); the persistent tier holds %v (present=%v); history: %+v", i, n, st.Val, c.Key, v, ok, c.Steps[:i+1])
+			}
+		case "delete":
+			if err := hs[n].Delete(c.Key); err != nil {
+				return "C14/harness/two-node", fmt.Sprintf("step %d: Delete: %v", i, err)
+			}
+			last, present = "", false
+			if v, ok := pers.RawGet(c.Key); ok {
+				return "C14/two-node/acknowledged-delete-not-in-persistent-tier",
+					fmt.Sprintf("step %d: node %d deleted %s (Delete returned nil); the persistent tier still holds %v; history: %+v", i, n, c.Key, v, c.Steps[:i+1])
+			}
+		case "evict":
+			caches[n].Delete(c.Key)
+		case "get":
+			// only a node without a cached copy is judged (a cached copy of another node's earlier write is the
+			// documented price of node-local caches)
+			if ok, _ := caches[n].Exists(c.Key); ok {
+				continue
+			}
+			v, err := hs[n].Get(c.Key)
+			got := "<notfound>"
+			if err == nil {
+				got = fmt.Sprint(v)
+			}
+			want := "<notfound>"
+			if present {
+				want = last
+			}
+			if got != want {
+				return "C14/two-node/read-without-cached-copy-returns-older-value",
+					fmt.Sprintf("step %d: node %d (no cached copy) read %s = %s, the last acknowledged write is %s; history: %+v", i, n, c.Key, got, want, c.Steps[:i+1])
+			}
+			time.Sleep(200 * time.Microsecond) // the read's own asynchronous write-back settles
+		}
+	}
+	return "", ""
+}
+
+func TestTwoNodeWriteThrough(t *testing.T) {
+	keys := []string{"tunnox:user:k7", "tunnox:persist:mapping:k7", "tunnox:port_mapping:k7", "tunnox:client_mappings:k7", "tunnox:persist:client:config:k7"}
+	vkit.Check(t, 1500, 40000, func(t *rapid.T) {
+		c := TNCase{TwoNode: true, Key: rapid.SampledFrom(keys).Draw(t, "key")}
+		rewrites := false
+		for n := rapid.IntRange(3, 10).Draw(t, "n"); n > 0; n-- {
+			st := TNStep{Op: rapid.SampledFrom([]string{"set", "set", "set", "set", "delete", "evict", "get", "get"}).Draw(t, "op"),
+				Node: rapid.IntRange(0, 1).Draw(t, "node"), Val: rapid.SampledFrom([]string{"a", "b"}).Draw(t, "val")}
+			c.Steps = append(c.Steps, st)
+		}
+		// a node writes again the value it wrote before, after the other node wrote something else
+		seen := map[string]bool{}
+		for _, s := range c.Steps {
+			if s.Op == "set" {
+				k := fmt.Sprint(s.Node, s.Val)
+				if seen[k] {
+					rewrites = true
+				}
+				seen[k] = true
+			}
+		}
+		key, detail := runTwoNode(c)
+		if key != "" {
+			vkit.Violation(t, key, detail, c)
+			return
+		}
+		vkit.Case("two-node-write-through", rewrites, fmt.Sprint(c))
+	})
+	// directed: A writes a, B writes b, A writes a again, both caches lose the key, both read
+	c := TNCase{TwoNode: true, Key: "tunnox:user:k7", Steps: []TNStep{{Op: "set", Node: 0, Val: "a"}, {Op: "set", Node: 1, Val: "b"}, {Op: "set", Node: 0, Val: "a"},
+		{Op: "evict", Node: 0}, {Op: "evict", Node: 1}, {Op: "get", Node: 1}, {Op: "get", Node: 0}}}
+	if key, detail := runTwoNode(c); key != "" {
+		vkit.Violation(t, key, detail, c)
+	}
+}
